@@ -616,6 +616,18 @@ def r7_emitted_key_encrypted(ctx):
 
 def run(ctx):
     r2b_chunker_lengths_positive(ctx)
+    # a key that init / add-key accepted and wrote must unlock the repository again: unlock applies the same acceptance
+    # test to (password, key) as the writers (None only), and the user key is KDF(password, the key's OWN kdf_params) -
+    # never a value remembered from another key
+    from ..report import Relabel as _RL17
+    from .c06 import r1_unlock
+
+    r1_unlock(_RL17(ctx, 'C17.R5'))
+    # what was written under an accepted configuration is found again under it: the loader drops a listed snapshot only for
+    # the user filter or a foreign tag - no condition that depends on digest / tag sizes, i.e. on the chosen hash or MAC
+    from .c02 import r3_skip_whitelist
+
+    r3_skip_whitelist(_RL17(ctx, 'C17.R2'))
     from ..report import Relabel
     from .c10 import r4_prefix, r3_stateless
 
